@@ -49,17 +49,42 @@ class Run:
                 from .rec import FaultBase
 
                 self.rec.fault_exc = FaultBase
+        import logging
+        import sys
+
+        records = []
+
+        class _H(logging.Handler):
+            def emit(self, record):  # noqa: A003
+                try:
+                    records.append(record.getMessage()[:300])
+                except Exception:  # noqa: BLE001
+                    records.append("<unformattable asyncio log record>")
+
+        handler = _H()
+        alog = logging.getLogger("asyncio")
+        alog.addHandler(handler)
+        unraisable = []
+        old_hook = sys.unraisablehook
+        sys.unraisablehook = lambda u: unraisable.append(f"{type(u.exc_value).__name__}: {u.exc_value} in {u.object!r}"[:300])
         with warnings.catch_warnings(record=True) as wrec:
             warnings.simplefilter("always")
             try:
                 if self.sc.driver == "inloop":
                     asyncio.run(self._amain())
+                elif self.sc.driver == "threads":
+                    self._tmain()
                 else:
                     self._main()
             finally:
                 gc.collect()
                 self._drain_cached_loop()
+                gc.collect()
+                alog.removeHandler(handler)
+                sys.unraisablehook = old_hook
         self.warnings = [(w.category.__name__, str(w.message)[:200]) for w in wrec]
+        self.asyncio_log = records
+        self.unraisable = unraisable
         render.unload(self.spec)
         return self.rec.log
 
@@ -78,17 +103,50 @@ class Run:
             pass
 
     # ------------------------------------------------------------------ steps (sync driver)
+    def _one_step_sync(self, step):
+        gen = self._step(step)
+        try:
+            pending = next(gen)
+            while True:
+                # a step yields awaitables only under the in-loop driver
+                if inspect.isawaitable(pending):
+                    raise RuntimeError("awaitable under sync driver")
+                pending = gen.send(pending)
+        except StopIteration:
+            pass
+
     def _main(self):
         for step in self.sc.steps:
-            gen = self._step(step)
+            self._one_step_sync(step)
+
+    def _tmain(self):
+        """Sync driver alternating between two OS threads that have no event loop."""
+        from concurrent.futures import ThreadPoolExecutor
+
+        exs = [ThreadPoolExecutor(1), ThreadPoolExecutor(1)]
+        try:
+            for i, step in enumerate(self.sc.steps):
+                exs[i % 2].submit(self._one_step_sync, step).result()
+        finally:
+            for ex in exs:
+                try:
+                    ex.submit(self._close_thread_loop).result()
+                finally:
+                    ex.shutdown()
+
+    def _close_thread_loop(self):
+        from statemachine.utils import _cached_loop
+
+        loop = getattr(_cached_loop, "loop", None)
+        if loop is None:
+            return
+        self._drain_cached_loop()
+        try:
+            loop.close()
+        finally:
             try:
-                pending = next(gen)
-                while True:
-                    # a step yields awaitables only under the in-loop driver
-                    if inspect.isawaitable(pending):
-                        raise RuntimeError("awaitable under sync driver")
-                    pending = gen.send(pending)
-            except StopIteration:
+                del _cached_loop.loop
+            except AttributeError:
                 pass
 
     async def _amain(self):
